@@ -546,6 +546,12 @@ func (parser *Parser) ParseExpression(depth int) (res Sexp, err error) {
 				}
 			}
 		}
+		if tok.str == "nil" {
+			// the nil value prints as nil; read as data it is
+			// that value again, as true and false are booleans
+			// and not symbols.
+			return SexpNull, nil
+		}
 		return env.MakeSymbol(tok.str), nil
 	case TokenSymbolColon:
 		sym := env.MakeSymbol(tok.str)
